@@ -87,10 +87,17 @@ func runC02(c *Ctx) {
 	c02GroupCount(c)
 	c02PortSplit(c)
 	c02IPDispatch(c)
-	c02V4Label(c)
-	c02V4Scanner(c)
+	// exact decisions of the IPv4 scanner and its octet predicate (c05exact.go);
+	// the structural rules are the fall-back
+	okLabel := v4LabelExact(c, "C02")
+	okScan := v4ScannerExact(c)
+	if !okLabel {
+		c02V4Label(c)
+	}
+	if !okScan {
+		c02V4Scanner(c)
+	}
 	c02LengthTests(c)
-	v4LabelExact(c, "C02")
 }
 
 func safeSkeleton(b *skel.Builder, f *ssa.Function) (s string) {
